@@ -10,4 +10,5 @@ CONSTANTS
   Dev = {}
   MaxMsgs = 3
   Depth = 5
+  ProbesLast = FALSE
 INVARIANT Emit
